@@ -52,7 +52,7 @@ void __wrap_rand_bytes(uint8_t *buf, size_t size) {
 static uint8_t big[70000 + 2 * CANARY];
 static uint8_t tmp[4096];
 
-static void op_gen(size_t len, uint64_t pat) {
+static void op_gen(size_t len, uint64_t pat, int bare) {
 	uint64_t s = pat;
 	/* heap block of exact size so that ASan sees any overrun; canaries as well */
 	uint8_t *b = (uint8_t *)malloc(len + 2 * CANARY);
@@ -62,10 +62,15 @@ static void op_gen(size_t len, uint64_t pat) {
 	memcpy(ref + CANARY, b + CANARY + len, CANARY);
 	uint8_t first = b[CANARY], last = len ? b[CANARY + len - 1] : 0;
 	int thrown = 0;
-	RLC_TRY {
+	if (bare) {
+		/* a caller without a protected block: an error is reported through the sticky code only */
 		rand_bytes(b + CANARY, len);
-	} RLC_CATCH_ANY {
-		thrown = 1;
+	} else {
+		RLC_TRY {
+			rand_bytes(b + CANARY, len);
+		} RLC_CATCH_ANY {
+			thrown = 1;
+		}
 	}
 	int canary_ok = memcmp(ref, b, CANARY) == 0 && memcmp(ref + CANARY, b + CANARY + len, CANARY) == 0;
 	int untouched = len == 0 || (b[CANARY] == first && b[CANARY + len - 1] == last);
@@ -159,7 +164,7 @@ static void engine_run(void) {
 			}
 			tr_printf("%s %ld thrown=%d code=%d\n", tok[0], l, thrown, err_get_code() == RLC_OK ? 0 : 1);
 		} else if (strcmp(tok[0], "GEN") == 0) {
-			op_gen((size_t)strtoul(tok[1], NULL, 10), pat++);
+			op_gen((size_t)strtoul(tok[1], NULL, 10), pat++, n > 2 && !strcmp(tok[2], "bare"));
 		} else if (strcmp(tok[0], "GENLOOP") == 0) {
 			long cnt = strtol(tok[1], NULL, 10);
 			size_t len = (size_t)strtoul(tok[2], NULL, 10);
